@@ -728,8 +728,9 @@ inductive Macro
   | sar (hostport : Str) (attrs : Attrs) (ch : Nat) (bound : Bool) (mid0 mid : List Macro)
   /-- one request through the whole chain: WithUpstreamInfo, `mid0`, authentication (`mid1`, `mid2` inside), `midA`,
       the impersonation check (if `attrs`; `mid` inside), `midD`, dispatcher. A stage is only reached when the previous
-      one let the request pass (authenticated; allowed without error). -/
-  | pipe (hostport tok : Str) (attrs : Option Attrs) (mid0 mid1 mid2 midA mid midD : List Macro)
+      one let the request pass (authenticated; allowed without error). `target` is the `Impersonate-User` header: the
+      check is `impAttrs user target` for the user the authentication produced (`WithNoLoggingImpersonation`). -/
+  | pipe (hostport tok : Str) (target : Option Str) (mid0 mid1 mid2 midA mid midD : List Macro)
 
 structure Run where
   s : State
@@ -745,6 +746,18 @@ def tokPassed (outs : List Out) (rid : Rid) : Bool :=
   outs.any fun o => match o with
     | .tok t => decide (t.rid = rid) && (match t.res with | .authenticated _ => true | _ => false)
     | _ => false
+
+/-- the user the authentication filter put into the request context -/
+def tokUser (outs : List Out) (rid : Rid) : Str :=
+  (outs.findSome? fun o => match o with
+    | .tok t => if t.rid = rid then (match t.res with | .authenticated u => some u | _ => none) else none
+    | _ => none).getD []
+
+/-- `actingAsAttributes` of `WithNoLoggingImpersonation` for `Impersonate-User: target` (kind User: group and version
+    empty, resource "users") sent by `user` (the token webhook fills in the name only) -/
+def impAttrs (user target : Str) : Attrs :=
+  { user := some ⟨user, [], [], []⟩, verb := [105, 109, 112, 101, 114, 115, 111, 110, 97, 116, 101], ns := [], apiGroup := [], apiVersion := [],
+    resource := [117, 115, 101, 114, 115], subresource := [], name := target, path := [], resourceRequest := true }
 
 /-- did the impersonation filter let it pass? (`err != nil || decision != DecisionAllow` ⇒ 403) -/
 def sarPassed (outs : List Out) (rid : Rid) : Bool :=
@@ -786,7 +799,7 @@ mutual
         else
           let r := runMacros env r mid
           r.app env (.sarFinish rid)
-    | .pipe hostport tok attrs mid0 mid1 mid2 midA mid midD =>
+    | .pipe hostport tok target mid0 mid1 mid2 midA mid midD =>
       let host := hostWithoutPort hostport
       if (mgrGet r.s.mgr host).isNone then r
       else
@@ -804,9 +817,10 @@ mutual
         if !tokPassed r.outs rid then r
         else
           let r := runMacros env r midA
-          match attrs with
+          match target with
           | none => (runMacros env r midD).app env (.dispatch host up 0)
-          | some atr =>
+          | some tg =>
+            let atr := impAttrs (tokUser r.outs rid) tg
             let r := r.app env (.ev (.tick 1))
             let rid2 := r.s.nextRid
             let r := ((r.app env (.sarBegin rid2 host atr 0 up)).app env (.sarCache rid2)).app env (.sarLookup rid2)
